@@ -3,6 +3,7 @@ package detector
 import (
 	"fmt"
 	"github.com/trajectoryjp/multidimensional-radix-tree/src/tree"
+	"github.com/trajectoryjp/spatial_id_go/v4/common"
 	"github.com/trajectoryjp/spatial_id_go/v4/common/consts"
 	"github.com/trajectoryjp/spatial_id_go/v4/common/errors"
 	"github.com/trajectoryjp/spatial_id_go/v4/integrate"
@@ -71,7 +72,7 @@ func CheckSpatialIdsArrayOverlap(spatialIds1 []string, spatialIds2 []string) (bo
 		}
 		// 高度インデックスをオフセット変換のみ実行して自然数にする
 		// minAltitudeKey == maxAltitudeKeyになるため結果は片方のみ利用する
-		convertedFIndex, _, errAltConversion := transform.ConvertZToMinMaxAltitudekey(int64(f1), int64(zoom1), int64(zoom1), consts.ZOriginValue, consts.ZBaseOffsetForNegativeFIndex)
+		convertedFIndex, errAltConversion := offsetFIndex(int64(f1), int64(zoom1))
 		if convertedFIndex < 0 {
 			return false, errors.NewSpatialIdError(errors.InputValueErrorCode, fmt.Sprintf("input f-index %v is out of altitude range @spatialId1[%v] = %v", f1, indexSpatialId1, spatialId1))
 		}
@@ -90,7 +91,7 @@ func CheckSpatialIdsArrayOverlap(spatialIds1 []string, spatialIds2 []string) (bo
 		// 取り出した要素の比較
 		// 高度インデックスをオフセット変換のみ実行して自然数にする
 		// minAltitudeKey == maxAltitudeKeyになるため結果は片方のみ利用する
-		convertedFIndex2, _, errAltConversion := transform.ConvertZToMinMaxAltitudekey(int64(f2), int64(zoom2), int64(zoom2), consts.ZOriginValue, consts.ZBaseOffsetForNegativeFIndex)
+		convertedFIndex2, errAltConversion := offsetFIndex(int64(f2), int64(zoom2))
 		if convertedFIndex2 < 0 {
 			return false, errors.NewSpatialIdError(errors.InputValueErrorCode, fmt.Sprintf("input f-index %v is out of altitude range @spatialId2[%v] = %v", f2, indexSpatialId2, spatialId2))
 		}
@@ -109,6 +110,19 @@ func CheckSpatialIdsArrayOverlap(spatialIds1 []string, spatialIds2 []string) (bo
 	}
 
 	return false, nil
+}
+
+// offsetFIndex 高度インデックスのオフセット変換関数
+//
+// fインデックスに、そのズームレベルにおける ZBaseOffsetForNegativeFIndex (高度-2^24m) 分のオフセットを加えて自然数にする。
+// 1m未満のボクセル(ズームレベル25超)でもインデックスを丸めずに変換する。
+// 変換後のインデックスがそのズームレベルに存在しない場合、エラーインスタンスが返却される。
+func offsetFIndex(f int64, zoom int64) (int64, error) {
+	_, _, err := transform.ConvertZToMinMaxAltitudekey(f, zoom, zoom, consts.ZOriginValue, consts.ZBaseOffsetForNegativeFIndex)
+	if err != nil {
+		return 0, err
+	}
+	return f + common.CalculateArithmeticShift(consts.ZBaseOffsetForNegativeFIndex, zoom-consts.ZOriginValue), nil
 }
 
 // getSpatialIdAttrs 空間IDフォーマットチェック関数
